@@ -1,6 +1,7 @@
 """Bounded stand-in for C05 (never counted as proved): job / project documents against a plain dict model, through several
 handles, unbuffered and inside signac.buffered(); the file on disk equals the model after every unbuffered step and on block exit."""
 import copy
+import contextlib
 import json
 import random
 
@@ -232,6 +233,42 @@ def rekey_in_buffer_check():
     return out
 
 
+def reopened_by_cached_id_check():
+    """a document through a handle opened by an id the project still remembers although the job was removed / re-keyed meanwhile:
+    a faithful persistent dict all the same (the handle creates the job directory on first use), buffered or not"""
+    import signac
+    out = []
+    for how in ("removed", "id-changed"):
+        for buffered in (False, True):
+            with project_scratch() as p:
+                try:
+                    job = p.open_job({"kind": how, "v": 0}).init()
+                    job.doc["old"] = True
+                    old_id = job.id
+                    if how == "removed":
+                        job.remove()
+                    else:
+                        job.sp.v = 1
+                    other = p.open_job(id=old_id)          # the id is still in the in-memory state point cache
+                    model = {}
+                    ctxm = signac.buffered() if buffered else contextlib.nullcontext()
+                    with ctxm:
+                        for d in (other.doc, model):
+                            d["a"] = 1
+                            d["b"] = {"c": [1, 2]}
+                            d.setdefault("e", "x")
+                            del d["a"]
+                        inside = norm(other.doc())
+                    after = norm(other.doc())
+                    disk = on_disk(other.fn("signac_job_document.json"))
+                    third = norm(p.open_job(id=old_id).doc())
+                    if not (inside == after == disk == third == model):
+                        out.append((f"{how}:{buffered}", f"document of a job reopened by a remembered id after it was {how} (buffered={buffered}): inside {inside}, after {after}, file {disk}, other handle {third}; plain dict {model}"))
+                except Exception as e:
+                    out.append((f"{how}:{buffered}", f"document of a job reopened by a remembered id after it was {how} (buffered={buffered}) raised {type(e).__name__}: {str(e)[:200]}"))
+    return out
+
+
 def run(tier="quick", seed=0):
     b = Budget(12 if tier == "quick" else 240)
     evals, distinct, failures, samples = 0, set(), [], []
@@ -260,6 +297,10 @@ def run(tier="quick", seed=0):
         failures.append({"key": "doc:rekey-inside-buffer:" + sig, "description": msg,
                          "script": script_header() + "sys.path.insert(0, '/verif')\nfrom pybound.c05 import rekey_in_buffer_check\nr = rekey_in_buffer_check()\nassert not r, r\n"})
     evals += 3
+    for sig, msg in reopened_by_cached_id_check():
+        failures.append({"key": "doc:reopened-by-cached-id:" + sig, "description": msg,
+                         "script": script_header() + "sys.path.insert(0, '/verif')\nfrom pybound.c05 import reopened_by_cached_id_check\nr = reopened_by_cached_id_check()\nassert not r, r\n"})
+    evals += 4
     from .fsharness import KNOWN_SEEN, probe_known
     probe_known()
     for k in sorted(KNOWN_SEEN):
@@ -267,6 +308,6 @@ def run(tier="quick", seed=0):
             failures.append({"key": k, "description": "known finding re-observed", "script": ""})
     return {"scope": "1-3 jobs + the project document, 1-3 handles each (same / freshly opened), 4-12 random mapping operations (item/attribute set, del, update, setdefault, pop, clear, reset, Job.clear() / Job.reset(), "
                      "nested dict and list mutation) over 10 JSON values; run unbuffered, fully inside signac.buffered() (capacities 0, 1, 64, default) and with nested buffered sub-blocks; "
-                     "remove / state point change after a document access inside one buffered block (3 routes); "
+                     "remove / state point change after a document access inside one buffered block (3 routes); a job reopened by a remembered id after remove / re-key (buffered or not); "
                      "resets that trigger dependency findings F23/F24 are excluded",
             "evaluations": evals, "distinct_nontrivial": len(distinct), "rule": "a case is one executed mapping operation; distinct by (operation, key)", "samples": samples, "failures": failures}
